@@ -96,6 +96,37 @@ def vh_trace(args, out_path, release=False, timeout=120):
     return evs
 
 
+def vh_records(args, out_path, release=False, timeout=900):
+    """Run a record-producing subcommand.  Returns (records, died): died is None, or {"rc", "during"} when the code under
+    test killed the harness (abort, stack overflow, out of memory) or never returned; `during` is the sidecar written
+    before the input that was being processed.  The caller turns that into a violation - it is not a tool error."""
+    r = vh(list(args) + ["--out", out_path], release=release, timeout=timeout, check=False)
+    recs = []
+    if os.path.exists(out_path):
+        with open(out_path) as f:
+            for l in f:
+                try:
+                    recs.append(json.loads(l))
+                except Exception:
+                    break
+        os.remove(out_path)
+    cur = out_path + ".cur"
+    during = None
+    if os.path.exists(cur):
+        try:
+            during = json.load(open(cur))
+        except Exception:
+            during = None
+        os.remove(cur)
+    died = None
+    if r.returncode != 0:
+        if during is None and not recs:
+            raise ToolError("harness %s failed rc=%s before processing any input: %s" % (args[:1], r.returncode, (r.stderr or "")[-1500:]))
+        died = {"rc": r.returncode if r.returncode > -99 else "timeout", "during": during or {}}
+        log("[harness] %s died rc=%s while processing %s" % (args[0], died["rc"], json.dumps(during)[:200]))
+    return recs, died
+
+
 # ----------------------------------------------------------------- TLC
 _run_id = [0]
 
